@@ -331,3 +331,26 @@ _ADD3 = {
 }
 for _p, _t in _ADD3.items():
     META[_p]['text'] = META[_p]['text'] + _t
+
+_ADD4 = {
+    'C01': ' A heap whose restore is deferred behind a flag is decided as a typestate (order holds or flag up; order required at every use). peek / pop and an id index '
+           'kept beside the list are interpreted by cases together with contains / remove.',
+    'C02': ' Direct calls of the float slot wrappers are the operations on the SI values; comparisons are also decided for one and the same object on both sides.',
+    'C04': ' The event-list rules of C01 are shared (non-decreasing time-changed notifications rest on them).',
+    'C05': ' The event-list rules of C01 are shared (the remaining events are executed in order after cancellations while paused).',
+    'C06': ' The event-list rules of C01 are shared (clear() and the membership answers after it).',
+    'C07': ' The private generator of a stream is its own also for copies: a bound method of it kept in a field must be re-bound by __setstate__ (shared with C12).',
+    'C08': ' A generator of notify calls consumed by any / all / next is a delivery that stops early.',
+    'C09': ' Memoised statistics: a stamp guard must fail after every change of what the memo was computed from (counter advanced, stamp or memo reset).',
+    'C10': ' Memoised statistics: the stamp must be an integer counter, not a floating-point sum; sound stamp guards are removed before the numeric analysis.',
+    'C11': ' The event-list rules of C01 are shared (the warm-up event precedes same-instant events only in a correctly ordered list).',
+    'C12': ' Random(x) is creation plus seed(x); a bound method of the generator kept in a field is accepted only with a __setstate__ that re-binds it last.',
+    'C13': ' A short-cut to the stock fallback\'s formula helper is accepted for the exact class only; under isinstance it by-passes overriding subclasses (R13.9).',
+    'C14': ' The stream a distribution draws from has a generator of its own, also after copying (shared with C12).',
+    'C15': ' erf_inv refuses |y| > 1 (decided by interpretation) and is an odd function (paired path summaries for y < 0 and y > 0).',
+    'C16': ' Every input of a memoised (signature, unit) entry is part of its key.',
+    'C17': ' Comparisons are also decided for one and the same object on both sides (NaN values).',
+    'C18': ' get / remove are interpreted for dotted keys of 1-3 symbolic elements over every tree variant (bounded); results of cached functions are not changed in place.',
+}
+for _p, _t in _ADD4.items():
+    META[_p]['text'] = META[_p]['text'] + _t
